@@ -75,8 +75,13 @@ def run(ctx):
     # the adversarial-name variants depend on where objects land in memory: many more allocation patterns
     nadv = len(variants) - len(fam)
     ks_adv = list(range(0, 20)) + [23, 29, 31, 37] if q else list(range(0, 40))
-    tasks = [(v, k, s) for v in variants[:nadv] for k in ks_adv for s in seeds] + \
-            [(v, k, s) for v in variants[nadv:] for k in ks for s in seeds]
+    # register chains / swaps / same-next registers on all three simulators (8 allocation patterns)
+    chain = json.dumps({'name': 'reg_chain', 'params': {}}, sort_keys=True)
+    allsims = ['regs_tie+allsims', 'pad_tie+allsims', 'regs_same_next+allsims', chain + '+allsims']
+    variants = variants + allsims
+    tasks = [(v, k, s) for v in allsims for k in ks for s in seeds[:1]] + \
+            [(v, k, s) for v in variants[:nadv] for k in ks_adv for s in seeds] + \
+            [(v, k, s) for v in variants[nadv:] if not v.endswith('+allsims') for k in ks for s in seeds]
     res = passcheck.pmap(_run, tasks, procs=16)
     byvar = {}
     for r in res:
@@ -96,8 +101,8 @@ def run(ctx):
                                    dict(module='props.C20', func='pass_behaviour_replay',
                                         kwargs=dict(variant=v, k=t_[1], seed=t_[2])),
                                    canonical_input=dict(variant=v, gap=t_[1], hashseed=t_[2], what=k_),
-                                   function='pyrtl.passes', solver_output='%d of %d runs' % (len(badp), len(rs)),
-                                   text='a transformation pass changed the behaviour of the design in some run')
+                                   function='pyrtl.passes / simulators', solver_output='%d of %d runs' % (len(badp), len(rs)),
+                                   text='a transformation pass or another simulator changed the behaviour of the design in some run')
         diff = {}
         for key in sorted(rs[0]['digest']):
             groups = {}
